@@ -264,18 +264,35 @@ def deprecate_tables() -> dict:
     g = guards[0]
     need(ast.unparse(g.test) == 'replacement is not None and (not validate_identifier(replacement))', 'replacement guard test: ' + ast.unparse(g.test))
     need(not g.orelse, 'replacement guard has else')
-    # body: a sequence of  replacement = replacement.replace(a, b)  then  replacement = f"<pre>{replacement}<post>"
-    repls: List[Tuple[str, str]] = []
+    # body: statements  replacement = <ops>(replacement)  then  replacement = f"<pre>{replacement}<post>"
+    # where <ops> is a chain of  .replace(a, b)  (one-character a) on `replacement`, optionally inside  SEP.join( ... .split())
+    ops: List[Tuple[int, int, str]] = []      # (0, ord(a), b) replace ; (1, 0, sep) = sep.join(x.split())
+
+    def chain(e: ast.expr) -> List[Tuple[int, int, str]]:
+        """ops of an expression built on the name `replacement`, innermost first"""
+        if is_name('replacement')(e):
+            return []
+        need(isinstance(e, ast.Call) and isinstance(e.func, ast.Attribute) and not e.keywords, 'replacement expression: ' + ast.unparse(e))
+        f = e.func
+        if f.attr == 'replace':
+            need(len(e.args) == 2 and all(isinstance(a, ast.Constant) and isinstance(a.value, str) for a in e.args)
+                 and len(e.args[0].value) == 1, 'replacement.replace shape: ' + ast.unparse(e))
+            return chain(f.value) + [(0, ord(e.args[0].value), e.args[1].value)]
+        if f.attr == 'join':
+            need(isinstance(f.value, ast.Constant) and isinstance(f.value.value, str) and len(e.args) == 1, 'join shape: ' + ast.unparse(e))
+            inner = e.args[0]
+            need(isinstance(inner, ast.Call) and isinstance(inner.func, ast.Attribute) and inner.func.attr == 'split'
+                 and not inner.args and not inner.keywords, 'join argument is not x.split(): ' + ast.unparse(e))
+            return chain(inner.func.value) + [(1, 0, f.value.value)]
+        need(False, 'replacement expression: ' + ast.unparse(e))
+        return []
     wrap = None
     for s in g.body:
         need(isinstance(s, ast.Assign) and len(s.targets) == 1 and is_name('replacement')(s.targets[0]), 'replacement guard statement')
         v = s.value
         if isinstance(v, ast.Call):
-            need(wrap is None, 'replace after wrap')
-            need(isinstance(v.func, ast.Attribute) and v.func.attr == 'replace' and is_name('replacement')(v.func.value)
-                 and len(v.args) == 2 and all(isinstance(a, ast.Constant) and isinstance(a.value, str) for a in v.args)
-                 and len(v.args[0].value) == 1, 'replacement.replace shape')
-            repls.append((v.args[0].value, v.args[1].value))
+            need(wrap is None, 'clean-up after wrap')
+            ops += chain(v)
         elif isinstance(v, ast.JoinedStr):
             need(wrap is None, 'two wraps')
             parts = v.values
@@ -308,7 +325,7 @@ def deprecate_tables() -> dict:
             need(isinstance(p, ast.FormattedValue) and isinstance(p.value, ast.Name) and p.value.id in ('version', 'text')
                  and p.conversion == -1 and p.format_spec is None, 'getDeprecated doc field')
             doc.append(('', 2 if p.value.id == 'version' else 4))
-    return {'with': t1, 'without': t0, 'repls': repls, 'wrap': wrap, 'doc': doc}
+    return {'with': t1, 'without': t0, 'ops': ops, 'wrap': wrap, 'doc': doc}
 
 
 def ranges(pred: Any) -> List[Tuple[int, int]]:
@@ -386,8 +403,9 @@ def generate() -> dict:
     L.append('Definition depr_with : list (list N * N) :=\n  %s.' % tpl(de['with']))
     L.append('Definition depr_without : list (list N * N) :=\n  %s.' % tpl(de['without']))
     L.append('Definition depr_doc : list (list N * N) :=\n  %s.' % tpl(de['doc']))
-    L.append('(* replacement.replace(a, b) calls applied to a non-identifier replacement, then the wrapping *)')
-    L.append('Definition depr_repls : list (N * list N) :=\n  %s.' % coq_pairs([(ord(a), b) for a, b in de['repls']]))
+    L.append('(* what is applied to a non-identifier replacement, in order, before the wrapping:')
+    L.append('   (0, a, b) = .replace(chr(a), b)   (1, 0, sep) = sep.join(x.split()) *)')
+    L.append('Definition depr_ops : list (N * N * list N) :=\n  [%s].' % ';\n   '.join('(%d, %d, %s)' % (k, a, coq_text(b)) for k, a, b in de['ops']))
     L.append('Definition depr_wrap_pre : list N := %s.' % coq_text(de['wrap'][0]))
     L.append('Definition depr_wrap_post : list N := %s.' % coq_text(de['wrap'][1]))
     L.append('(* str.isidentifier: first character in xid_start (includes _), others in xid_continue; inclusive ranges *)')
